@@ -19,7 +19,7 @@ pub fn exec(input: &Value) -> Value {
     let size = input["size"].as_u64().unwrap();
     let low = input["low"].as_u64().unwrap();
     let mut ev = serde_json::Map::new();
-    for k in ["kind", "op", "x", "y", "size", "low"] {
+    for k in ["kind", "op", "x", "y", "size", "low", "cls"] {
         ev.insert(k.to_string(), input[k].clone());
     }
     ev.insert("ev".into(), json!("op"));
@@ -56,8 +56,20 @@ pub fn replay(run: &[Value], _sub: &str) -> Vec<Value> {
     run.iter().map(exec).collect()
 }
 
+/// Feature tag of the INPUTS of an event (used only to key known findings, never to decide).
+fn cls(op: &str, x: &RawIv, y: Option<&RawIv>, size: u64) -> &'static str {
+    let single = |r: &RawIv| r.start == r.end;
+    let zero = |r: &RawIv| single(r) && to_i128(&r.start) == 0;
+    match (op, y) {
+        ("Piece", Some(y)) if single(y) && !single(x) && ((x.stride as u128) << (8 * y.width())) > u64::MAX as u128 => "piece_stride_overflow",
+        ("IntMult", Some(y)) if (zero(x) && !single(y)) || (zero(y) && !single(x)) => "mul_by_zero",
+        ("IntZExt", _) if size > 8 && to_i128(&x.start) < 0 && to_i128(&x.end) >= 0 => "zext_wide_sign_crossing",
+        _ => "",
+    }
+}
+
 fn input(kind: &str, op: &str, x: &RawIv, y: Option<&RawIv>, size: u64, low: u64) -> Value {
-    json!({"kind": kind, "op": op, "x": x.json(), "y": y.unwrap_or(x).json(), "size": size, "low": low})
+    json!({"kind": kind, "op": op, "x": x.json(), "y": y.unwrap_or(x).json(), "size": size, "low": low, "cls": cls(op, x, y, size)})
 }
 
 fn is_top_or_single(r: &Value) -> bool {
@@ -154,7 +166,7 @@ pub fn gen(out: &mut Out, _sub: &str) {
     }
     // unary / casts / subpiece on 1- and 2-byte intervals (complete enumeration up to 65536 members)
     for w in [1u64, 2] {
-        let n = out.size(if w == 1 { 260 } else { 120 }, if w == 1 { 8000 } else { 3000 });
+        let n = out.size(if w == 1 { 220 } else { 50 }, if w == 1 { 8000 } else { 3000 });
         for _ in 0..n {
             let mut x = rand_raw(&mut rng, w, HINT_PCT);
             if w == 2 && count(&x) > 6000 && rng.chance(if q { 9 } else { 5 }, 10) { x = rand_raw_sized(&mut rng, w, Size::Medium, HINT_PCT); }
@@ -188,12 +200,12 @@ pub fn gen(out: &mut Out, _sub: &str) {
     for w in [2u64, 4, 8] {
         for op in INT_BIN_OPS {
             if op.starts_with("Bool") { continue; }
-            let n = if RICH.contains(&op) { out.size(150, 5000) } else { out.size(25, 600) };
+            let n = if RICH.contains(&op) { out.size(60, 5000) } else { out.size(10, 600) };
             bin_events(out, &mut rng, op, w, n, u128::MAX);
         }
         // Piece with a 1-byte upper part and a wide lower part
-        bin_events(out, &mut rng, "Piece", 1, out.size(40, 800), u128::MAX);
-        let n = out.size(250, 6000);
+        bin_events(out, &mut rng, "Piece", 1, out.size(25, 800), u128::MAX);
+        let n = out.size(120, 6000);
         for _ in 0..n {
             let x = rand_raw(&mut rng, w, HINT_PCT);
             if w > 2 {
